@@ -145,6 +145,60 @@ def targets():
         e.m_q = mr
         return e.estimate(a, m)
 
+    def _quest_trace(A, v):
+        """run QUEST.estimate on consistent data, recording the operands of every convergence test
+        `abs(l_old - l_max) > 1e-8` (the path is the converged one: see _not_converged)"""
+        from pysym import sym
+        seen = []
+        def watch(atom, value):
+            if atom.op == 'lt' and atom.args[0].op == 'const' and atom.args[1].op == 'fn' and atom.args[1].args[0] == 'abs':
+                d = atom.args[1].args[1]
+                if d.op == 'sub':
+                    seen.append((d.args[0], d.args[1]))
+            return _not_converged(atom, value)
+        a, m, _, mr = _sym_meas(v, UP, _ned)
+        e = F(A).QUEST(magnetic_dip=60.0)
+        e.m_q = mr
+        # inner run along the converged side: every convergence test is decided False and NOT recorded in the target's own
+        # decision tree (the guarded model is C04_quest; these derived targets are the values computed along that path)
+        saved = (sym.CTX.prune, sym.CTX.trace, sym.CTX.known, sym.CTX.prefix)
+        sym.CTX.prune, sym.CTX.trace, sym.CTX.known, sym.CTX.prefix = watch, [], {}, [False] * 64
+        try:
+            out = e.estimate(a, m)
+            inner = list(sym.CTX.trace)
+        finally:
+            sym.CTX.prune, sym.CTX.trace, sym.CTX.known, sym.CTX.prefix = saved
+        if len(inner) != len(seen):
+            raise sym.Unsupported("QUEST.estimate took a data-dependent decision other than its convergence test")
+        return out, seen
+
+    def quest_newton1(A, v):
+        """numerator and denominator of the FIRST Newton step l_max -= phi/phi_prime, started at sum(weights) = 1"""
+        from pysym.sym import Unsupported
+        out, seen = _quest_trace(A, v)
+        l0, l1 = seen[0]
+        if not (l0.op == 'const' and l0.value == 1 and l1.op == 'sub' and l1.args[0] is l0 and l1.args[1].op == 'div'):
+            raise Unsupported("first Newton step of QUEST is not of the form 1 - phi/phi_prime")
+        return [l1.args[1].args[0], l1.args[1].args[1]]
+
+    def quest_at_root(A, v):
+        """the code's closed-form quaternion with the final Newton iterate replaced by the root 1"""
+        from pysym.sym import S
+        out, seen = _quest_trace(A, v)
+        lfin = seen[-1][1]
+        memo = {}
+        def sub(e):
+            if not isinstance(e, S):
+                return e
+            if e is lfin:
+                return S.const(1)
+            r = memo.get(e.uid)
+            if r is None:
+                r = S(e.op, *[sub(t) for t in e.args]) if e.op not in ('const', 'var', 'pi') else e
+                memo[e.uid] = r
+            return r
+        return [sub(t) for t in np.asarray(out).reshape(-1)]
+
     def davenport_K(A, v):
         a, m, _, mr = _sym_meas(v, UP, _ned)
         e = F(A).Davenport(magnetic_dip=60.0, gravity=1.0)
@@ -230,6 +284,8 @@ def targets():
         mk('famc', famc),
         mk('fqa', fqa),
         mk('quest', quest, "QUEST.estimate; Newton loop traced on its converged side only", prune=_not_converged),
+        mk('quest_newton1', quest_newton1, "QUEST: (phi, phi_prime) of the first Newton step from l = sum(weights) = 1", prune=_not_converged),
+        mk('quest_at_root', quest_at_root, "QUEST: closed-form quaternion of the code with the Newton result replaced by 1", prune=_not_converged),
         mk('davenport_K', davenport_K, "the matrix Davenport.estimate hands to np.linalg.eig"),
         mk('flae_W', flae_W, "the matrix FLAE.estimate(method='eig') hands to np.linalg.eig"),
         mk('flae_newton_N', flae_newton_N, "the matrix FLAE.estimate(method='newton') hands to np.linalg.inv", prune=_not_converged),
@@ -240,9 +296,10 @@ STAGES = []
 
 
 STAGES = [['C04_tac.v'],
-          ['C04_matrix.v', 'C04_eigen.v', 'C04_closed.v', 'C04_decl.v',
+          ['C04_matrix.v', 'C04_eigen.v', 'C04_closed.v', 'C04_decl.v', 'C04_tilt.v',
            ('C04_refuted_flae.v', {'finding': 'flae_newton/identity-fallback'})],
           ['C04.v']]
+STAGES_THOROUGH = [['C04_quest.v'], ['C04_quest_cf.v'], ['C04_thorough.v']]
 COQ_TIMEOUT = 600
 
 LEVEL_TEXT = ("Coq theorems over the regenerated estimators run on symbolic consistent data: TRIAD (estimate, constructor, both "
@@ -857,6 +914,7 @@ def correspondence(ctx):
         ctx.correspond('C04_fqa_decl', _cases(ctx, n, 'closed'),
                        lambda c: (lambda a, m, g, mr: ahrs.filters.FQA(mag_ref=mr).estimate(a, np.array(m)))(*_meas_c(c, 'fqa', True)),
                        tol_ulp=64, abs_tol=2e-9, up_to_sign=True)
+        ctx.correspond('C04_quest_at_root', _cases(ctx, n, 'closed'), (lambda c: _run_impl('quest', c)), tol_ulp=64, abs_tol=2e-9, up_to_sign=True)
         ctx.correspond('C04_quest_decl', _cases(ctx, n, 'closed'), q_decl, tol_ulp=64, abs_tol=2e-9, up_to_sign=True)
     # captured LAPACK inputs: the top eigenvector of the model's matrix (evaluated inside Coq) is what the public call returns
     from vlib import core
